@@ -185,7 +185,7 @@ ASat(r, m, law, i) ==
     [] law = "Inverse" -> m.inv[i[1]] < TolUnits(r.dt)
     [] law = "Monotone" -> IF WellSeparated(Rad(r, i[1]), Rad(r, i[2])) THEN m.ord[i[1]][i[2]] = 1
                            ELSE m.ord[i[1]][i[2]] >= 0
-    [] law = "FactorDecreasing" -> m.fac[i[1]] >= m.fac[i[2]]
+    [] law = "FactorDecreasing" -> m.fac[i[1]] + 1 >= m.fac[i[2]]        \* one unit of 2^-20 for the quantisation
     [] law = "EqualRadius" -> m.fac[i[1]] - m.fac[i[2]] \in -1 .. 1
 AHolds(r, m, law) == \A i \in AInst(r, law) : ASat(r, m, law, i)
 AFirstBroken(r, m) == IF \A k \in DOMAIN AsinhLaws : AHolds(r, m, AsinhLaws[k]) THEN ""
@@ -209,17 +209,18 @@ TermNum(c, t, i, j, signed) ==
 ANum(c, t, signed) ==
   SumInt([e \in 1 .. (t.nr * t.nc) |-> TermNum(c, t, (e - 1) \div t.nc, (e - 1) % t.nc, signed)])
 (* numerators of the full n x n image, row-major, and of the magnitudes of its terms *)
-FullNum(c) == LET a == [k \in DOMAIN c.tpl |-> ANum(c, c.tpl[k], TRUE)]
-              IN [q \in 1 .. (c.n * c.n) |-> SumInt([k \in DOMAIN c.tpl |-> a[k] * c.tpl[k].rr[q]])]
-FullMag(c) == LET a == [k \in DOMAIN c.tpl |-> ANum(c, c.tpl[k], FALSE)]
-              IN [q \in 1 .. (c.n * c.n) |-> SumInt([k \in DOMAIN c.tpl |-> a[k] * Abs(c.tpl[k].rr[q])])]
+(* (f \o <<>> makes TLC evaluate the function once instead of on every application)         *)
+FullNum(c) == LET a == [k \in DOMAIN c.tpl |-> ANum(c, c.tpl[k], TRUE)] \o <<>>
+              IN [q \in 1 .. (c.n * c.n) |-> SumInt([k \in DOMAIN c.tpl |-> a[k] * c.tpl[k].rr[q]])] \o <<>>
+FullMag(c) == LET a == [k \in DOMAIN c.tpl |-> ANum(c, c.tpl[k], FALSE)] \o <<>>
+              IN [q \in 1 .. (c.n * c.n) |-> SumInt([k \in DOMAIN c.tpl |-> a[k] * Abs(c.tpl[k].rr[q])])] \o <<>>
 Trimmed(c) == c.trim # <<>>
 OutShape(c) == IF Trimmed(c) THEN c.trim ELSE <<c.n, c.n>>
 (* position in the full image of output element (a, b), 1-based: the central block *)
 SrcIndex(c, a, b) == LET sh == OutShape(c)
                      IN (a + (c.n - sh[1]) \div 2 - 1) * c.n + b + (c.n - sh[2]) \div 2
 OutOf(c, full) == LET sh == OutShape(c)
-                  IN [e \in 1 .. (sh[1] * sh[2]) |-> full[SrcIndex(c, (e - 1) \div sh[2] + 1, ((e - 1) % sh[2]) + 1)]]
+                  IN [e \in 1 .. (sh[1] * sh[2]) |-> full[SrcIndex(c, (e - 1) \div sh[2] + 1, ((e - 1) % sh[2]) + 1)]] \o <<>>
 Normalised(c) == c.norm # <<0, 1>>
 PsfDefined(c) ==
   /\ c.fn = "psf" /\ c.n % 2 = 1 /\ c.cd >= 1 /\ c.ypos >= 0 /\ c.xpos >= 0 /\ Len(c.tpl) >= 1
@@ -252,8 +253,10 @@ ZeroBeyondOrder(t) == [t EXCEPT !.c = [i \in DOMAIN t.c |-> [j \in DOMAIN t.c[i]
 GarbageIrrelevant(c) == FullNum(c) = FullNum([c EXCEPT !.tpl = [k \in DOMAIN c.tpl |-> ZeroBeyondOrder(c.tpl[k])]])
 (* the image is additive in the templates: reconstructing each template alone and adding  *)
 TemplatesAdd(c) == LET one(k) == [c EXCEPT !.tpl = <<c.tpl[k]>>]
-                   IN \A q \in 1 .. (c.n * c.n) :
-                        FullNum(c)[q] = SumInt([k \in DOMAIN c.tpl |-> FullNum(one(k))[q] * (PsfDen(c) \div PsfDen(one(k)))])
+                       all == FullNum(c)
+                       each == [k \in DOMAIN c.tpl |-> FullNum(one(k))] \o <<>>
+                       lift == [k \in DOMAIN c.tpl |-> PsfDen(c) \div PsfDen(one(k))] \o <<>>
+                   IN \A q \in 1 .. (c.n * c.n) : all[q] = SumInt([k \in DOMAIN c.tpl |-> each[k][q] * lift[k]])
 (* second phrasing of a_k with module Rat (Horner in the row variable), for small instances *)
 RECURSIVE HornerRat(_, _)
 HornerRat(coefs, x) == IF coefs = <<>> THEN Zero ELSE Add(coefs[1], Mul(x, HornerRat(Tail(coefs), x)))
@@ -302,21 +305,31 @@ PsfJudge(c, got) ==
       sg(x) == IF x < 0 THEN -1 ELSE 1
       ExpFix(e, tot) == IF Normalised(c) THEN Fix20(sg(tot) * num[e] * c.norm[1], Abs(tot) * c.norm[2])
                         ELSE Fix20(num[e], D)
-      Tol(tot) == IF Normalised(c) THEN 2 + 9 * PsfTolPerUnit * CeilDiv(mag * c.norm[1], Abs(tot) * c.norm[2])
-                  ELSE 2 + PsfTolPerUnit * CeilDiv(mag, D)
+      Tol(tot) == IF Normalised(c) THEN 2 + 9 * CeilDiv(PsfTolPerUnit * mag * c.norm[1], Abs(tot) * c.norm[2])
+                  ELSE 2 + CeilDiv(PsfTolPerUnit * mag, D)
       Near(e, tot) == Abs(FixDiff(got[e], ExpFix(e, tot))) <= Tol(tot)
       AllNear(tot) == \A e \in DOMAIN num : Near(e, tot)
   IN IF Len(got) # Len(num) THEN "length"
      ELSE IF AllNear(S) \/ (Normalised(c) /\ Trimmed(c) /\ AllNear(St)) THEN ""
      ELSE "value"
 
-(* ---- named deviations of pydl 1.0 found with this module ---- *)
-(* Dev_OrderOfFirstTemplate: the code applies template 1's (nrow_b, ncol_b) to every template *)
+(* ---- named deviations of pydl found with this module ---- *)
+(* D-X03-1  Dev_OrderOfFirstTemplate: the code applies template 1's (nrow_b, ncol_b) to every   *)
+(*          template: higher-order terms of later templates are dropped, or the garbage beyond  *)
+(*          their own order is added.                                                           *)
+(* D-X03-2  Dev_RowColOrdersSwapped: the code slices the coefficient table with the row order    *)
+(*          along the column-power axis; with nrow_b # ncol_b (of template 1) it raises a       *)
+(*          broadcasting ValueError or silently mixes terms.                                    *)
 Dev_OrderOfFirstTemplate(c) ==
   [c EXCEPT !.tpl = [k \in DOMAIN c.tpl |-> [c.tpl[k] EXCEPT !.nr = c.tpl[1].nr, !.nc = c.tpl[1].nc]]]
-(* Dev_RowColOrdersSwapped: the code slices the coefficient table with the row order along the *)
-(* column-power axis; with nrow_b # ncol_b it raises or silently drops / mixes terms            *)
+Dev_RowColOrdersSwapped(c) == c.tpl[1].nr # c.tpl[1].nc
 Dev_Affects(c) == \E k \in DOMAIN c.tpl : c.tpl[k].nr # c.tpl[k].nc \/ c.tpl[k].nr # c.tpl[1].nr \/ c.tpl[k].nc # c.tpl[1].nc
+(* which deviation, if any, explains an observed result exactly *)
+Dev_Explains(c, got) ==
+  IF Dev_RowColOrdersSwapped(c) THEN "D-X03-2"
+  ELSE LET d == Dev_OrderOfFirstTemplate(c)
+       IN IF d # c /\ (Normalised(c) => SumInt(FullNum(d)) # 0 /\ SumInt(OutOf(d, FullNum(d))) # 0) /\ PsfJudge(d, got) = ""
+          THEN "D-X03-1" ELSE ""
 
 Defined(c) == IF c.fn = "psf" THEN PsfDefined(c) ELSE RgbDefined(c)
 Expected(c) == IF c.fn = "psf" THEN PsfExpected(c) ELSE RgbExpected(c)
